@@ -40,6 +40,11 @@ class Ref:
         if c == "n":
             self.dbs.setdefault(int(op[1]), {})
             return "0"
+        if c == "x":
+            if int(op[1]) not in self.dbs:
+                return "NF"
+            del self.dbs[int(op[1])]
+            return "0"
         if c == "p":
             f = op[3:].split(":")
             db = int(op[1])
